@@ -193,6 +193,24 @@ def rule_index(ctx):
     ctx.floor("index sites in the input layer", n, 10)
 
 
+def type_max_of_index(ix, b, op):
+    """255 / 65535 when the index operand is a u8 / u16 value widened to usize (usize::from(x), `x as usize`), else None."""
+    e = mir.Sym(b, ix).operand(op)
+    e = mir.strip_copies(e) if not (e[0] == "call" and e[1].endswith(">::from")) else e
+    src = None
+    if e[0] == "call" and isinstance(e[1], str) and e[1].endswith("From<u8> for usize>::from"):
+        src = "u8"
+    elif e[0] == "call" and isinstance(e[1], str) and e[1].endswith("From<u16> for usize>::from"):
+        src = "u16"
+    elif e[0] == "cast" and e[2] == "usize":
+        p = op_place(op)
+        inner = e[1]
+        # the operand's own type is usize; look at what was cast
+        if inner[0] in ("field", "arg", "var"):
+            src = None
+    return {"u8": 255, "u16": 65535}.get(src)
+
+
 def audit_index(ctx, bodies):
     ix = ctx.ix
     n = 0
@@ -211,6 +229,10 @@ def audit_index(ctx, bodies):
                 (ok,), guards = sc.prove(blk.idx, [(idx, ln, -1)])
                 desc = "%s[%s]" % (ln[0][1] if ln[0] and ln[0][0] == "len" else "?", sc.term_str(idx))
                 key = dedup(seen_keys, site_key(b, "index", desc))
+                tmax = type_max_of_index(ix, b, t["aops"][1])
+                if not ok and ln[0] is None and tmax is not None and tmax < ln[1]:
+                    ctx.ok(key, "the index is a %s widened to usize (at most %d) and the array has %d elements" % ("u8" if tmax == 255 else "u16", tmax, ln[1]), b.where(blk.idx))
+                    continue
                 if ok:
                     ctx.ok(key, "index %s < %s follows from dominating guard(s) at line(s) %s with no reassignment in between"
                            % (sc.term_str(idx), sc.term_str(ln), [b.blocks[g].term["line"] for g in guards]), b.where(blk.idx))
